@@ -34,6 +34,7 @@ package openapi3filter
 //@ extend func ValidateResponse
 //@   assuming input != nil && input.RequestValidationInput != nil && input.RequestValidationInput.Request != nil && input.RequestValidationInput.Route != nil && input.RequestValidationInput.Route.Operation != nil
 //@   assuming 0 <= input.Status && input.Status <= 999
+//@   assuming input.Body != nil
 //@   ensures @C08 [not-checked] old(respSkipped(input)) ==> result == nil
 //@   ensures @C08 [no-definitions] !old(respSkipped(input)) && (old(respDefs(input)) == nil || old(len(respDefs(input).m)) == 0) ==> result == nil
 //@   ensures @C08 [undocumented-status] !old(respSkipped(input)) && old(respDefs(input)) != nil && old(len(respDefs(input).m)) > 0 && old(respSelected(input)) == nil ==> ((result == nil) <==> !old(strictStatus(input)))
